@@ -12,80 +12,10 @@ record itself is gone.
 -/
 namespace SaoVerif
 
-theorem upsertBy_mem_ne {α : Type} (key : α → Nat) (l : List α) (x y : α) (hu : (l.map key).Pairwise (· < ·)) (h : y ∈ upsertBy key l x) :
-    y = x ∨ (y ∈ l ∧ key y ≠ key x) := by
-  induction l with
-  | nil => simp [upsertBy] at h; exact Or.inl h
-  | cons z t ih =>
-    simp only [List.map_cons, List.pairwise_cons] at hu
-    unfold upsertBy at h
-    split at h
-    · rename_i hz
-      rcases List.mem_cons.mp h with h | h
-      · exact Or.inl h
-      · refine Or.inr ⟨List.mem_cons_of_mem _ h, ?_⟩
-        have := hu.1 (key y) (List.mem_map_of_mem h)
-        omega
-    · rename_i hz
-      split at h
-      · rename_i hlt
-        rcases List.mem_cons.mp h with h | h
-        · exact Or.inl h
-        · rcases List.mem_cons.mp h with h | h
-          · exact Or.inr ⟨by rw [h]; exact List.mem_cons_self, by rw [h]; exact hz⟩
-          · refine Or.inr ⟨List.mem_cons_of_mem _ h, ?_⟩
-            have := hu.1 (key y) (List.mem_map_of_mem h)
-            omega
-      · rcases List.mem_cons.mp h with h | h
-        · exact Or.inr ⟨by rw [h]; exact List.mem_cons_self, by rw [h]; exact hz⟩
-        · rcases ih hu.2 h with h | h
-          · exact Or.inl h
-          · exact Or.inr ⟨List.mem_cons_of_mem _ h.1, h.2⟩
-
-theorem upsertBy_sorted {α : Type} (key : α → Nat) (l : List α) (x : α) (hu : (l.map key).Pairwise (· < ·)) :
-    ((upsertBy key l x).map key).Pairwise (· < ·) := by
-  induction l with
-  | nil => simp [upsertBy]
-  | cons z t ih =>
-    simp only [List.map_cons, List.pairwise_cons] at hu
-    unfold upsertBy
-    split
-    · rename_i hz
-      simp only [List.map_cons, List.pairwise_cons]
-      exact ⟨fun a ha => by rw [← hz]; exact hu.1 a ha, hu.2⟩
-    · split
-      · rename_i hlt
-        simp only [List.map_cons, List.pairwise_cons]
-        refine ⟨?_, hu.1, hu.2⟩
-        intro a ha
-        rcases List.mem_cons.mp ha with h | h
-        · rw [h]; exact hlt
-        · have := hu.1 a h; omega
-      · rename_i hz hlt
-        simp only [List.map_cons, List.pairwise_cons]
-        refine ⟨?_, ih hu.2⟩
-        intro a ha
-        rcases List.mem_map.mp ha with ⟨y, hy, rfl⟩
-        rcases upsertBy_mem key t x y hy with h | h
-        · rw [h]; omega
-        · exact hu.1 _ (List.mem_map_of_mem h)
-
-/-- in a store sorted by id, the record `find?` returns for an id is the only one with that id -/
-theorem sorted_find_unique (l : List Order) (o : Order) (hu : (l.map (·.id)).Pairwise (· < ·)) (ho : o ∈ l) :
-    l.find? (·.id = o.id) = some o := by
-  induction l with
-  | nil => cases ho
-  | cons z t ih =>
-    simp only [List.map_cons, List.pairwise_cons] at hu
-    simp only [List.find?_cons]
-    rcases List.mem_cons.mp ho with h | h
-    · simp [h]
-    · have := hu.1 o.id (List.mem_map_of_mem h)
-      have hz : ¬ z.id = o.id := by omega
-      simp only [hz, decide_false]
-      exact ih hu.2 h
-
 def OSorted (s : State) : Prop := (s.orders.map (·.id)).Pairwise (· < ·)
+
+/-- the order store is sorted in every state reachable from a sorted one (`Bnd` is an invariant of every history: Properties/C16Ids.lean) -/
+theorem Bnd_OSorted {s : State} (hb : Bnd s) : OSorted s := (Bnd_sorted hb).1
 
 theorem setOrder_listers (s : State) (x : Order) (L : Nat) (hs : OSorted s) (hx : L ∉ x.shards) :
     OSorted (s.setOrder x) ∧ ∀ o ∈ (s.setOrder x).orders, L ∈ o.shards → o ∈ s.orders ∧ o.id ≠ x.id := by
